@@ -10,7 +10,7 @@
 
    Slice reads ops[l], counts[i] are written with nth and a default: every index that reaches
    them is a loop index below len(c) or an operand of an Op returned by Chain.Ops(k), and those are
-   < k for EVERY input (lemma ops_bounds in proofs/OptChainAux.v, table_bounds in OptProofs.v), so
+   < k for EVERY input (lemma ops_bounds in proofs/OptChainAux.v; rows only shrink by filtering), so
    Go cannot raise an index panic here and the default is never observed.
    counts are Go ints; they are bounded by 2*len(c)^2, so no wrap-around is reachable: nat.
    Optimize never returns a non-nil error and never validates its input. *)
